@@ -9,7 +9,6 @@ impl MonStub {
 }
 /// MODEL of Server for the string/key handlers in server.rs: the storage engine model (prelude/engine_model.rs) and monitoring
 pub struct Server { pub storage: EngineModel, pub monitoring: MonStub }
-pub type TTL = Map<(int, Seq<u8>), int>;
 /// `e.to_string()` on the crate's error type (Display; RCALL site)
 #[verifier::external_body]
 pub fn verif_err_to_string(e: FerrousError) -> String { unimplemented!() }
@@ -283,8 +282,6 @@ pub fn verif_parse_u64<F>(s: String) -> (r: std::result::Result<u64, IntErr>)
 pub open spec fn time_arg(parts: Seq<RespFrame>, i: int) -> Option<u64> {
     match arg(parts, i) { Some(b) => match spec_utf8(b) { Some(s) => spec_str_u64(s), None => None }, None => None }
 }
-/// options accumulated so far: requested TTL in ns, NX, XX
-pub struct SetOpts { pub exp: Option<int>, pub nx: bool, pub xx: bool }
 /// the options of SET read left to right from position i; None = syntax error / invalid expire time
 pub open spec fn set_opts(parts: Seq<RespFrame>, i: int, o: SetOpts) -> Option<SetOpts>
     decreases parts.len() - i
@@ -303,14 +300,6 @@ pub open spec fn set_opts(parts: Seq<RespFrame>, i: int, o: SetOpts) -> Option<S
         }
     }
 }
-/// what SET does once its options are known
-pub open spec fn spec_set(ds: DS, ttl: TTL, db: int, k: Seq<u8>, v: Seq<u8>, o: SetOpts) -> (RV, DS, TTL) {
-    let stored = (RV::Okay, ds.insert((db, k), DV::Str(v)), match o.exp { Some(n) => ttl.insert((db, k), n), None => ttl.remove((db, k)) });
-    if o.nx { if ds.contains_key((db, k)) { (RV::Bulk(None), ds, ttl) } else { stored } }
-    else if o.xx { if ds.contains_key((db, k)) { stored } else { (RV::Bulk(None), ds, ttl) } }
-    else { stored }
-}
-
 /// DEL k1 .. : keys are removed left to right; a key named twice counts once (it is gone the second time); arguments that are
 /// not bulk strings are skipped
 pub open spec fn del_upto(ds: DS, ttl: TTL, db: int, parts: Seq<RespFrame>, n: int) -> (int, DS, TTL)
